@@ -263,6 +263,24 @@ def build_carrier(values, kind, container):
     raise ValueError(container)
 
 
+def noncontig(arr, rng, how=None):
+    """an ndarray with the same shape, dtype and (logical) content as `arr` but another memory layout: Fortran order, a view with a
+    negative stride, or a strided view into a larger buffer.  A library that walks memory order instead of logical order shows here."""
+    arr = np.asarray(arr)
+    if arr.ndim == 0 or arr.size < 2:
+        return arr
+    how = how or rng.choice(['F', 'neg', 'strided'] if arr.ndim >= 2 else ['neg', 'strided'])
+    if how == 'F' and arr.ndim >= 2:
+        out = np.asfortranarray(arr)
+    elif how == 'neg':
+        out = arr[::-1].copy()[::-1]
+    else:
+        big = np.repeat(arr, 2, axis=arr.ndim - 1)
+        out = big[..., ::2]
+    assert out.shape == arr.shape and out.dtype == arr.dtype
+    return out
+
+
 def container_shape(container, n):
     if container in ('scalar', '0d'):
         return ()
@@ -283,7 +301,7 @@ def quarter_grid(signed, n_word, ranges=3):
 
 # ------------------------------------------------------------------------------ operands with a history
 HISTORIES = ['deepcopy', 'copy', 'fxp_of', 'fxp_like', 'element', 'resize_roundtrip', 'resign_roundtrip', 'raw_set', 'equal', 'from_bin',
-             'from_values', 'like_template', 'double_transpose', 'reset_after_flags']
+             'from_values', 'like_template', 'double_transpose', 'reset_after_flags', 'noncontig_raw', 'reversed_view', 'transposed_once']
 
 
 def historied(Fxp, x, rng, how=None):
@@ -344,6 +362,20 @@ def historied(Fxp, x, rng, how=None):
             if len(shape) < 2:
                 return x, 'none'
             y = np.transpose(np.transpose(x))
+        elif how == 'noncontig_raw':
+            # the same codes held in a buffer that is not C-contiguous (Fortran order / negative stride / strided view)
+            if len(shape) == 0 or codes.size < 2:
+                return x, 'none'
+            y = Fxp(None, s, w, nf)
+            y.set_val(noncontig(codes, rng), raw=True)
+        elif how == 'reversed_view':
+            if len(shape) == 0 or codes.size < 2:
+                return x, 'none'
+            y = Fxp(codes[::-1].copy(), s, w, nf, raw=True)[::-1]
+        elif how == 'transposed_once':
+            if len(shape) != 2:
+                return x, 'none'
+            y = Fxp(codes.T.copy(), s, w, nf, raw=True).T
         elif how == 'reset_after_flags':
             y = x.deepcopy()
             y(float(y.upper) * 2 + 1 if w <= 52 else 0)
